@@ -56,19 +56,22 @@ def s_plain(exe, rng):
     return h, "rq 0 " + h.make_request(0, code=rng.choice([1, 4]), user=b"bob@example.org").hex()
 
 
-def s_wrapped(exe, rng):
+def s_wrapped(exe, rng, rep=None):
     """the identifier cursor of the server has reached the end of the table (255 requests went out): the next request is placed by
-    the second, wrap-around scan of sendrq"""
+    the second, wrap-around scan of sendrq - at once (cursor 256), or because the last identifier is still taken (cursor 255, busy)"""
     cfg = base_cfg(rng, False, False)
+    cfg.opts["loopprev"] = 0
+    for s in cfg.servers:
+        s["loopprev"] = 255
     h = start(exe, rng, cfg)
     names = [s["name"] for s in cfg.servers]
+    busy = (rng.random() < 0.5) if rep is None else (rep % 2 == 1)
     for n in names:
-        h.send("srvnext %s %d" % (n, rng.choice([256, 256, 255])))
-    if rng.random() < 0.5:      # ... with the last identifiers still taken
-        h.rq(0, h.make_request(0, code=1, user=b"al@example.org", pwd=False, extra=[], ident=9))
-        for n in names:
-            h.send("srvnext %s 255" % n)
-    return h, "rq 0 " + h.make_request(0, code=rng.choice([1, 4]), user=b"bob@example.org", ident=77).hex()
+        h.send("srvnext %s %d" % (n, 255 if busy else 256))
+    if busy:      # the request that takes identifier 255 (the cursor moves on to 256)
+        h.rq(0, h.make_request(0, code=1, user=b"al@example.org", pwd=False, extra=[], ident=9, with_ma=True))
+    code = rng.choice([1, 4]) if rep is None else [1, 4, 4, 1][rep % 4]
+    return h, "rq 0 " + h.make_request(0, code=code, user=b"bob@example.org", ident=77, pwd=False, extra=[], with_ma=True).hex()
 
 
 def s_rewrites(exe, rng):
@@ -83,9 +86,11 @@ def s_pwd(exe, rng):
     return h, "rq 0 " + h.make_request(0, code=1, user=b"bob@example.org", pwd=b"p" * rng.choice([5, 16, 40]), chap=True, extra=WH.eap_attrs(rng, valid=True)).hex()
 
 
-def s_local(exe, rng):
+def s_local(exe, rng, rep=None):
     h = start(exe, rng, base_cfg(rng, rng.random() < 0.5, False))
-    code = rng.choice([1, 4, 12, 1])
+    # (every repetition takes the next kind of locally answered request: Access-Reject with the realm's Reply-Message, Accounting-Response,
+    #  Status-Server answer, …)
+    code = rng.choice([1, 4, 12, 1]) if rep is None else [1, 4, 12, 1][rep % 4]
     user = b"x@none.example" if code != 4 or rng.random() < 0.5 else False
     extra = [(33, b"st1"), (33, b"st2")] + (WH.eap_attrs(rng, valid=False) if rng.random() < 0.3 else [])
     return h, "rq 0 " + h.make_request(0, code=code, user=user, extra=extra).hex()
@@ -172,9 +177,10 @@ def _toks(out, prefix):
     return [t for t in out.split(" | ")[0].split(" ##")[0].split() if t.startswith(prefix)]
 
 
-def run_one(exe, name, fn, seed, n, base=None):
+def run_one(exe, name, fn, seed, n, base=None, rep=None):
     rng = random.Random(seed)
-    h, target = fn(exe, rng)
+    import inspect
+    h, target = fn(exe, rng, rep) if "rep" in inspect.signature(fn).parameters else fn(exe, rng)
     at = len(h.s.lines)
     out = h.send("fault %d %s" % (n, target))
     m = re.search(r"allocs:(\d+)", out)
@@ -227,14 +233,14 @@ def run_one(exe, name, fn, seed, n, base=None):
 
 
 def gen_run(exe, rng, tier):
-    reps = 3 if tier == "quick" else 12
-    jobs = [(name, fn, rng.randrange(1 << 60)) for name, fn in SCENARIOS for _ in range(reps)]
+    reps = 4 if tier == "quick" else 12
+    jobs = [(name, fn, rng.randrange(1 << 60), rep) for name, fn in SCENARIOS for rep in range(reps)]
     with ThreadPoolExecutor(12) as ex:
-        counts = list(ex.map(lambda j: run_one(exe, j[0], j[1], j[2], -1), jobs))
+        counts = list(ex.map(lambda j: run_one(exe, j[0], j[1], j[2], -1, None, j[3]), jobs))
     work = [(j, n) for j, (c, allocs) in zip(jobs, counts) for n in range(allocs)]
     with ThreadPoolExecutor(14) as ex:
         basecase = {j: c for j, (c, allocs) in zip(jobs, counts)}
-        res = list(ex.map(lambda w: run_one(exe, w[0][0], w[0][1], w[0][2], w[1], basecase[w[0]])[0], work))
+        res = list(ex.map(lambda w: run_one(exe, w[0][0], w[0][1], w[0][2], w[1], basecase[w[0]], w[0][3])[0], work))
     return [c for c, _ in counts] + res
 
 
